@@ -276,4 +276,4 @@ LEVEL_TEXT = ("inductive generator contracts on the two response wrappers: for e
               "warning, interleaved C-STORE request) exactly one item is surfaced (zero for the sub-operation request), iteration stops "
               "at the first non-Pending response with the reactor checkpoint set, aborts where documented, lock depth 0 at every yield.")
 LEVEL_NOTE = "trusted: pyvc, z3, environment model of the association, callee contracts (code_to_category C28, decode, _c_store_scp C19)."
-TECHNIQUE = "deductive: inductive generator/loop contracts with ghost lock depth (AST->VC, z3)"
+TECHNIQUE = 'deductive: inductive generator/loop contracts with ghost lock depth on the response iterators + effect-trace contracts on _handle_no_response, Association.abort and ACSE.send_abort (AST->VC, z3)'
